@@ -40,7 +40,7 @@ VARS = ['x', 'y']
 
 
 def bounds(tier):
-    return {'program_depth': 2, 'triples': 2500 if tier == 'quick' else 60000, 'steering_programs': 'x := e; if g(x) then y := c1 else y := c2 with 8 e, 6 g, 6 constant pairs, 3 postconditions about y, 3 preconditions (2592)', 'loop_unrolling_K': 3 if tier == 'quick' else 5,
+    return {'program_depth': 2, 'triples': 2500 if tier == 'quick' else 60000, 'steering_programs': 'x := e; if g(x) then y := c1 else y := c2 with 8 e, 6 g, 6 constant pairs, 3 postconditions about y, 3 preconditions (2592)', 'function_application_programs': 'x := e / y := x; x := e / if x < y then x := e else y := e with 9 e (incl. abs x, max x y), 8 postconditions with abs / max over compound arguments, 4 preconditions (864)', 'loop_unrolling_K': 3 if tier == 'quick' else 5,
             'printed_conditions': 'all arithmetic expressions of depth <= 2 over x y 1 (2673) + boolean combinations (600 / 20000 seeded: half fixed shapes, half random nestings of & | --> ~ if-then-else to depth 3)',
             'eval_Sem_programs': 150 if tier == 'quick' else 3000}
 
@@ -70,6 +70,9 @@ def ze(e, st):
         return f(*a)
     if isinstance(e, expr.ITE):
         return z3.If(ze(e.cond, st), ze(e.e1, st), ze(e.e2, st))
+    if isinstance(e, expr.Fun) and e.fname in ('abs', 'max'):
+        a = [ze(x, st) for x in e.args]
+        return z3.If(a[0] >= 0, a[0], -a[0]) if e.fname == 'abs' else z3.If(a[0] >= a[1], a[0], a[1])
     raise NotImplementedError(repr(e))
 
 
@@ -90,6 +93,9 @@ def pyeval(e, st):
                 '|': lambda x, y: x or y, '-->': lambda x, y: (not x) or y, '<-->': lambda x, y: x == y}[op](*a)
     if isinstance(e, expr.ITE):
         return pyeval(e.e1, st) if pyeval(e.cond, st) else pyeval(e.e2, st)
+    if isinstance(e, expr.Fun) and e.fname in ('abs', 'max'):
+        a = [pyeval(x, st) for x in e.args]
+        return abs(a[0]) if e.fname == 'abs' else max(a[0], a[1])
     raise NotImplementedError
 
 
@@ -106,6 +112,8 @@ def mk_expr(d):
         return expr.Op(d[1], mk_expr(d[2]))
     if k == 'ite':
         return expr.ITE(mk_expr(d[1]), mk_expr(d[2]), mk_expr(d[3]))
+    if k == 'f':
+        return expr.Fun(d[1], *[mk_expr(x) for x in d[2:]])
     return expr.Op(d[1], mk_expr(d[2]), mk_expr(d[3]))
 
 
@@ -358,6 +366,32 @@ def judge_triple(prog, pre_d, post_d, K):
     return None, 'fine', True
 
 
+def F(name, *args):
+    return ('f', name) + tuple(args)
+
+
+# assertions with applications of the global functions (abs, max) to compound arguments
+FUN_ASSERTS = [B('==', F('abs', B('-', X, Y)), C0), B('<=', F('abs', X), Y), B('<', F('abs', B('+', X, C1)), C2), B('==', F('max', B('-', X, C1), C0), Y),
+               B('==', F('max', X, Y), X), B('<=', F('max', B('+', X, Y), B('-', X, Y)), C2), B('==', F('abs', F('max', X, B('-', C0, Y))), C1),
+               B('<=', Y, F('max', C0, B('*', C2, X)))]
+
+
+def fun_family():
+    """x := e (also followed by y := e') against postconditions with abs / max over compound arguments."""
+    if 'fun' in _FAM:
+        return _FAM['fun']
+    es = [B('+', X, C1), B('-', X, C1), B('*', C2, X), C0, Y, B('-', Y, X), ('u', '-', X), F('abs', X), F('max', X, Y)]
+    out = []
+    for e in es:
+        for post in FUN_ASSERTS:
+            for pre in ('wp', B('==', X, Y), B('<=', C0, X), ('c', True)):
+                out.append((('asg', 'x', e), post, pre))
+                out.append((('seq', ('asg', 'y', X), ('asg', 'x', e)), post, pre))
+                out.append((('if', B('<', X, Y), ('asg', 'x', e), ('asg', 'y', e)), post, pre))
+    _FAM['fun'] = out
+    return out
+
+
 def steer_family():
     """Programs in which one variable only steers control flow:  x := e; if g(x) then y := c1 else y := c2  (also with the
     roles of a later assignment), with postconditions about y alone."""
@@ -388,7 +422,7 @@ def run_triples(u, out):
     _, tier, seed, lo, n = u
     K = 3 if tier == 'quick' else 5
     rnd = random.Random('c20-%s-%s' % (seed, lo))
-    steer = steer_family() if u[0] == 'steer' else None
+    steer = steer_family() if u[0] == 'steer' else fun_family() if u[0] == 'funs' else None
     for j in range(n):
         if steer is not None:
             if lo + j >= len(steer):
@@ -614,6 +648,9 @@ def units(tier, seed):
     ns = len(steer_family())
     for lo in range(0, ns, 250):
         us.append(('steer', tier, seed, lo, 250))
+    nf = len(fun_family())
+    for lo in range(0, nf, 108):
+        us.append(('funs', tier, seed, lo, 108))
     na = len(arith_exprs())
     for lo in range(0, na, 300):
         us.append(('printed', tier, seed, 'arith', lo, lo + 300))
@@ -629,7 +666,7 @@ def units(tier, seed):
 
 def run_unit(u):
     out = {'evals': 0, 'keys': set(), 'cex': [], 'samples': [], 'inconclusive': 0, 'stats': {}}
-    if u[0] in ('triples', 'steer'):
+    if u[0] in ('triples', 'steer', 'funs'):
         run_triples(u, out)
     elif u[0] == 'printed':
         run_printed(u, out)
